@@ -15,6 +15,9 @@ import gc
 import logging
 import signal
 import struct
+import warnings
+
+warnings.filterwarnings("ignore", message="coroutine .* was never awaited")   # abandoned loops after a stall
 
 ID = "C12"
 LEAN_MODULES = ["Ebv.Props.C12"]
@@ -24,7 +27,7 @@ THEOREMS = [
     "Ebv.C12.sent_once_in_order", "Ebv.C12.sent_after_quiesce", "Ebv.C12.sent_nodup",
     "Ebv.C12.frames_wellformed", "Ebv.C12.completes_at_most_once", "Ebv.C12.own_bytes",
     "Ebv.C12.wkc_zero_fails", "Ebv.C12.response_completes", "Ebv.C12.independence",
-    "Ebv.C12.unsendable_fails", "Ebv.C12.overflow_only_unsendable",
+    "Ebv.C12.unsendable_fails", "Ebv.C12.overflow_only_unsendable", "Ebv.C12.cancelled_only_own",
 ]
 TRUSTED = [
     "hand-written event-level model Ebv.SendLoop of sendloop/process_packet/roundtrip_packet/datagram_received, "
@@ -624,6 +627,12 @@ def gen(rng, kind=None, scale=1):
         queue = []
         if rng.random() < 0.15:
             events.append(["q"])
+    if flight and rng.random() < 0.6:     # the bus answers what is still out
+        rng.shuffle(flight)
+        for fid, dgs in flight:
+            if rng.random() < 0.85:
+                events.append(["d", fid, {"w": [rng.choice(WKCS) for _ in dgs], "p": [rng.randrange(250) for _ in dgs]}])
+        events.append(["q"])
     return {"events": events, "collide": rng.choice([0, 0, 1, 2, 3])}
 
 
